@@ -112,6 +112,8 @@ pub open spec fn solutions_ok(sols: Seq<Solution>) -> bool {
 // T-std: Vec<i64> (Key / Value) is determined by its contents - needed to speak about "the entry for these key words" of a HashMap<Key, Value>.
 pub open spec fn same_words(a: Vec<i64>, b: Vec<i64>) -> bool { a@ == b@ }
 pub broadcast axiom fn axiom_vec_i64_ext(a: Vec<i64>, b: Vec<i64>) ensures #[trigger] same_words(a, b) ==> a == b;
+// the same fact, triggered by the two views (for values that cannot be named, e.g. the result of a `.clone()` passed on directly)
+pub broadcast axiom fn axiom_vec_i64_ext_views(a: Vec<i64>, b: Vec<i64>) ensures (#[trigger] a@) == (#[trigger] b@) ==> a == b;
 pub open spec fn proposed(cs: Map<Key, Value>, k: Seq<i64>) -> Option<Seq<i64>> {
     if exists|kk: Key| kk@ == k && cs.contains_key(kk) { Some(cs[choose|kk: Key| kk@ == k && cs.contains_key(kk)]@) } else { None } }
 pub open spec fn overlay_val<S: StateRead>(cs: Map<Key, Value>, state: &S, c: ContentAddress, k: Seq<i64>) -> Result<Seq<i64>, S::Error> {
@@ -189,11 +191,113 @@ pub proof fn lemma_proposed(cs: Map<Key, Value>, key: Key)
         so.item(e)
     for e in ('struct Outputs', 'struct DataFromSolution', 'enum DataOutput'):
         so.item(e)
-    so.fn('decode_mutations', F('decode_mutations',
+    so.spec('''
+// C16: "a solution set returned by the mutation-computing check still satisfies the one-mutation-per-slot rule"
+pub open spec fn is_slot(sols: Seq<Solution>, i: int, j: int, sl: (ContentAddress, Key)) -> bool {
+    0 <= i < sols.len() && 0 <= j < sols[i].state_mutations@.len() && sl == (sols[i].predicate_to_solve.contract, sols[i].state_mutations@[j].key) }
+pub open spec fn in_slots(sols: Seq<Solution>, sl: (ContentAddress, Key)) -> bool { exists|i: int, j: int| #[trigger] is_slot(sols, i, j, sl) }
+pub open spec fn in_slots_upto(sols: Seq<Solution>, a: int, b: int, sl: (ContentAddress, Key)) -> bool { exists|i: int, j: int| #[trigger] is_slot(sols, i, j, sl) && before(i, j, a, b) }
+// the hash set holds exactly the slots of the solutions
+pub open spec fn holds_slots(ms: Set<(ContentAddress, Key)>, sols: Seq<Solution>) -> bool { forall|sl: (ContentAddress, Key)| #[trigger] ms.contains(sl) <==> in_slots(sols, sl) }
+pub open spec fn holds_slots_upto(ms: Set<(ContentAddress, Key)>, sols: Seq<Solution>, a: int, b: int) -> bool { forall|sl: (ContentAddress, Key)| #[trigger] ms.contains(sl) <==> in_slots_upto(sols, a, b, sl) }
+pub open spec fn slots_unique(sols: Seq<Solution>) -> bool {
+    forall|i: int, j: int, i2: int, j2: int, sl: (ContentAddress, Key)| #[trigger] is_slot(sols, i, j, sl) && #[trigger] is_slot(sols, i2, j2, sl) ==> i == i2 && j == j2 }
+// the solution at idx gained one mutation m at the end; everything else is unchanged
+pub open spec fn pushed(cur: Seq<Solution>, cur2: Seq<Solution>, idx: int, m: Mutation) -> bool {
+    0 <= idx < cur.len() && cur2.len() == cur.len()
+    && (forall|k: int| 0 <= k < cur.len() && k != idx ==> cur2[k] == cur[k])
+    && cur2[idx].predicate_to_solve == cur[idx].predicate_to_solve
+    && cur2[idx].state_mutations@ == cur[idx].state_mutations@.push(m) }
+pub proof fn lemma_pushed(cur: Seq<Solution>, cur2: Seq<Solution>, idx: int, m: Mutation)
+    requires pushed(cur, cur2, idx, m)
+    ensures forall|sl: (ContentAddress, Key)| #[trigger] in_slots(cur2, sl) <==> (in_slots(cur, sl) || sl == (cur[idx].predicate_to_solve.contract, m.key)),
+            slots_unique(cur) && !in_slots(cur, (cur[idx].predicate_to_solve.contract, m.key)) ==> slots_unique(cur2)
+{
+    let new = (cur[idx].predicate_to_solve.contract, m.key);
+    let jn = cur[idx].state_mutations@.len() as int;
+    assert(is_slot(cur2, idx, jn, new));
+    assert forall|i: int, j: int, sl: (ContentAddress, Key)| is_slot(cur, i, j, sl) implies is_slot(cur2, i, j, sl) by {
+        if i == idx { assert(cur2[idx].state_mutations@[j] == cur[idx].state_mutations@[j]); } }
+    assert forall|i: int, j: int, sl: (ContentAddress, Key)| is_slot(cur2, i, j, sl) implies (is_slot(cur, i, j, sl) || (i == idx && j == jn && sl == new)) by {
+        if i == idx && j < jn { assert(cur2[idx].state_mutations@[j] == cur[idx].state_mutations@[j]); } }
+    assert forall|sl: (ContentAddress, Key)| #[trigger] in_slots(cur2, sl) <==> (in_slots(cur, sl) || sl == new) by {
+        if in_slots(cur2, sl) { let (i, j) = choose|i: int, j: int| #[trigger] is_slot(cur2, i, j, sl); if is_slot(cur, i, j, sl) {} }
+        if in_slots(cur, sl) { let (i, j) = choose|i: int, j: int| #[trigger] is_slot(cur, i, j, sl); assert(is_slot(cur2, i, j, sl)); } }
+    if slots_unique(cur) && !in_slots(cur, new) {
+        assert forall|i: int, j: int, i2: int, j2: int, sl: (ContentAddress, Key)| #[trigger] is_slot(cur2, i, j, sl) && #[trigger] is_slot(cur2, i2, j2, sl) implies i == i2 && j == j2 by {
+            let a = is_slot(cur, i, j, sl); let b = is_slot(cur, i2, j2, sl);
+            if a && b {} else if a { assert(sl == new); assert(in_slots(cur, new)); } else if b { assert(sl == new); assert(in_slots(cur, new)); } else {} } }
+}
+pub proof fn lemma_upto_all(sols: Seq<Solution>)
+    ensures forall|sl: (ContentAddress, Key)| #[trigger] in_slots_upto(sols, sols.len() as int, 0, sl) <==> in_slots(sols, sl)
+{
+    assert forall|sl: (ContentAddress, Key)| in_slots(sols, sl) implies #[trigger] in_slots_upto(sols, sols.len() as int, 0, sl) by {
+        let (i, j) = choose|i: int, j: int| #[trigger] is_slot(sols, i, j, sl); assert(before(i, j, sols.len() as int, 0)); }
+}
+pub proof fn lemma_upto_step(sols: Seq<Solution>, i: int, j: int)
+    requires 0 <= i < sols.len(), 0 <= j < sols[i].state_mutations@.len()
+    ensures forall|sl: (ContentAddress, Key)| #[trigger] in_slots_upto(sols, i, j + 1, sl) <==> (in_slots_upto(sols, i, j, sl) || sl == (sols[i].predicate_to_solve.contract, sols[i].state_mutations@[j].key))
+{
+    let new = (sols[i].predicate_to_solve.contract, sols[i].state_mutations@[j].key);
+    assert(is_slot(sols, i, j, new) && before(i, j, i, j + 1));
+    assert forall|sl: (ContentAddress, Key)| #[trigger] in_slots_upto(sols, i, j + 1, sl) <==> (in_slots_upto(sols, i, j, sl) || sl == new) by {
+        if in_slots_upto(sols, i, j + 1, sl) {
+            let (a, b) = choose|a: int, b: int| #[trigger] is_slot(sols, a, b, sl) && before(a, b, i, j + 1);
+            if a == i && b == j {} else { assert(before(a, b, i, j)); } }
+        if in_slots_upto(sols, i, j, sl) {
+            let (a, b) = choose|a: int, b: int| #[trigger] is_slot(sols, a, b, sl) && before(a, b, i, j); assert(before(a, b, i, j + 1)); } }
+}
+pub proof fn lemma_upto_next(sols: Seq<Solution>, i: int)
+    requires 0 <= i < sols.len()
+    ensures forall|sl: (ContentAddress, Key)| #[trigger] in_slots_upto(sols, i + 1, 0, sl) <==> in_slots_upto(sols, i, sols[i].state_mutations@.len() as int, sl)
+{
+    let n = sols[i].state_mutations@.len() as int;
+    assert forall|sl: (ContentAddress, Key)| #[trigger] in_slots_upto(sols, i + 1, 0, sl) <==> in_slots_upto(sols, i, n, sl) by {
+        if in_slots_upto(sols, i + 1, 0, sl) { let (a, b) = choose|a: int, b: int| #[trigger] is_slot(sols, a, b, sl) && before(a, b, i + 1, 0); assert(before(a, b, i, n)); }
+        if in_slots_upto(sols, i, n, sl) { let (a, b) = choose|a: int, b: int| #[trigger] is_slot(sols, a, b, sl) && before(a, b, i, n); assert(before(a, b, i + 1, 0)); } }
+}
+''')
+    so.fn('decode_mutations', F('decode_mutations', attrs=['#[verifier::loop_isolation(false)]'],
           requires='forall|k: int| 0 <= k < outputs.data@.len() ==> ((#[trigger] outputs.data@[k]).solution_index as int) < set.solutions@.len()',
-          head_ghost='let ghost n0 = set.solutions@.len();',
-          loops={2: {'iter_name': 'ito', 'invariant': '''set.solutions@.len() == n0, ito.seq() == outputs.data@, 0 <= ito.index@ <= ito.seq().len(),
-                        forall|k: int| 0 <= k < outputs.data@.len() ==> ((#[trigger] outputs.data@[k]).solution_index as int) < n0'''}},
+          ensures='''r matches Ok(s2) ==> s2.solutions@.len() == set.solutions@.len(),
+            // the returned set proposes at most one mutation per (contract, key) if the given one did
+            slots_unique(set.solutions@) ==> (r matches Ok(s2) ==> slots_unique(s2.solutions@))''',
+          head_ghost='let ghost n0 = set.solutions@.len(); let ghost sols0 = set.solutions@; let ghost uniq0 = slots_unique(set.solutions@);',
+          loops={0: {'iter_name': 'its', 'invariant': '''set.solutions@ == sols0, its.seq().len() == sols0.len(), 0 <= its.index@ <= sols0.len(),
+                        (forall|k: int| 0 <= k < its.seq().len() ==> *(#[trigger] its.seq()[k]) == sols0[k]),
+                        holds_slots_upto(mut_set@, sols0, its.index@ as int, 0)''',
+                     'after_proof': 'lemma_upto_all(sols0);'},
+                 1: {'iter_name': 'itm', 'invariant': '''set.solutions@ == sols0, 0 <= its.index@ < sols0.len(), *s == sols0[its.index@ as int],
+                        itm.seq().len() == s.state_mutations@.len(), 0 <= itm.index@ <= itm.seq().len(),
+                        (forall|k: int| 0 <= k < itm.seq().len() ==> *(#[trigger] itm.seq()[k]) == s.state_mutations@[k]),
+                        holds_slots_upto(mut_set@, sols0, its.index@ as int, itm.index@ as int)''',
+                     'head_ghost': 'let ghost ms1 = mut_set@;',
+                     'head_proof': '''assert(*m == sols0[its.index@ as int].state_mutations@[itm.index@ as int]);
+                        lemma_upto_step(sols0, its.index@ as int, itm.index@ as int);''',
+                     'tail_proof': '''broadcast use axiom_vec_i64_ext_views;
+                        let new = (s.predicate_to_solve.contract, m.key);
+                        assert(mut_set@ =~= ms1.insert(new));''',
+                     'after_proof': 'lemma_upto_next(sols0, its.index@ as int);'},
+                 2: {'iter_name': 'ito', 'invariant': '''set.solutions@.len() == n0, ito.seq() == outputs.data@, 0 <= ito.index@ <= ito.seq().len(),
+                        forall|k: int| 0 <= k < outputs.data@.len() ==> ((#[trigger] outputs.data@[k]).solution_index as int) < n0,
+                        holds_slots(mut_set@, set.solutions@), uniq0 ==> slots_unique(set.solutions@)'''},
+                 3: {'iter_name': 'itd', 'invariant': '''0 <= idx < n0, pre.len() == n0, s.predicate_to_solve == pre[idx].predicate_to_solve,
+                        holds_slots(mut_set@, pre.update(idx, *s)), uniq0 ==> slots_unique(pre.update(idx, *s))'''},
+                 4: {'iter_name': 'itx', 'invariant': '''0 <= idx < n0, pre.len() == n0, s.predicate_to_solve == pre[idx].predicate_to_solve,
+                        holds_slots(mut_set@, pre.update(idx, *s)), uniq0 ==> slots_unique(pre.update(idx, *s))''',
+                     'head_ghost': 'let ghost s_before = *s; let ghost ms_before = mut_set@;'}},
+          hints=[('let s = &mut set.solutions[output.solution_index as usize];', 'before', 'let ghost pre = set.solutions@; let ghost idx = output.solution_index as int;', 'ghost'),
+                 ('let s = &mut set.solutions[output.solution_index as usize];', 'after', 'assert(pre.update(idx, *s) =~= pre);'),
+                 ('s.state_mutations.push(mutation);', 'before', 'let ghost pushed_m = mutation;', 'ghost'),
+                 ('s.state_mutations.push(mutation);', 'after', '''broadcast use axiom_vec_i64_ext_views;
+                    let cur = pre.update(idx, s_before); let cur2 = pre.update(idx, *s);
+                    let new = (s_before.predicate_to_solve.contract, pushed_m.key);
+                    assert(cur[idx] == s_before);
+                    assert(pushed(cur, cur2, idx, pushed_m));
+                    lemma_pushed(cur, cur2, idx, pushed_m);
+                    assert(mut_set@ =~= ms_before.insert(new));
+                    assert(!ms_before.contains(new));
+                    assert(!in_slots(cur, new));''')],
           props=('C16', 'C06')))
     _S2 = 'predicate.starts(), predicate.edges@'
     so.fn('create_parent_map', F('create_parent_map', ensures="""
